@@ -235,9 +235,7 @@ func (ep *ExportingProcess) SendSet(set entities.Set) (int, error) {
 		return 0, fmt.Errorf("set type is not properly defined")
 	}
 	for _, record := range set.GetRecords() {
-		if setType == entities.Template {
-			ep.updateTemplate(record.GetTemplateID(), record.GetOrderedElementList(), record.GetMinDataRecordLen())
-		} else if setType == entities.Data {
+		if setType == entities.Data {
 			err := ep.dataRecSanityCheck(record)
 			if err != nil {
 				return 0, fmt.Errorf("error when doing sanity check:%v", err)
@@ -258,6 +256,13 @@ func (ep *ExportingProcess) SendSet(set entities.Set) (int, error) {
 	}
 	if err != nil {
 		return bytesSent, err
+	}
+	// Templates are recorded only once they have been sent, so that data sets are never
+	// accepted for a template the collector did not receive.
+	if setType == entities.Template {
+		for _, record := range set.GetRecords() {
+			ep.updateTemplate(record.GetTemplateID(), record.GetOrderedElementList(), record.GetMinDataRecordLen())
+		}
 	}
 	return bytesSent, nil
 }
